@@ -6,8 +6,12 @@ LEVEL = "proof"
 PID = "C05"
 
 
+GRID = cr.small_ratio_grid(8)
+
+
 def make_job(rng, idx, quick):
-    cfg, env = cr.gen_config(rng, datatypes=True, channels=True)
+    # the first jobs of every run walk through all small-integer ratios (each is planned in its own way); the rest are drawn at random
+    cfg, env = cr.gen_config(rng, datatypes=True, channels=True, rates=GRID[idx] if idx < len(GRID) else None)
     N = rng.choice([0, 1, 2, 17, 1000, 4096, 30000]) if rng.chance(.4) else rng.below(40000 if quick else 300000)
     cap = 150000 if quick else 2000000
     N = min(N, int(cap * max(1.0, cr.io_ratio(cfg))), int(cap * cr.io_ratio(cfg)) + 3)
